@@ -1090,7 +1090,7 @@ EXPECTS = [None, ("Expect", "100-continue"), ("expect", "100-Continue"), ("EXPEC
 def tier_params(tier):
     if tier == "thorough":
         return dict(nmax=9, wdepth=3, bmax=7, items=5)
-    return dict(nmax=8, wdepth=2, bmax=7, items=5)
+    return dict(nmax=8, wdepth=2, wdepth_small=3, bmax=7, items=5)   # wrapper schedules <= 3 reads for n <= 6
 
 
 def units(tier):
@@ -1138,7 +1138,7 @@ def check_raw(raw, n, R, tier, meta, graph=True, wrappers=True):
         if hung:
             return
     if wrappers:
-        for sched in wrapper_schedules(n, P["wdepth"]):
+        for sched in wrapper_schedules(n, P.get("wdepth_small", P["wdepth"]) if n <= 6 else P["wdepth"]):
             sig, delivered, end, text = run_schedule(raw, sched)
             R.count("executions")
             R.count("wrapper_runs")
